@@ -73,6 +73,8 @@ type DCase struct {
 	Ops   []DOp         `json:"ops"`
 	Plan  []WStep       `json:"plan,omitempty"`  // writer plan by writer call index
 	Fault map[int]WStep `json:"fault,omitempty"` // sparse plan: writer call index -> step
+	// Rich: the decoder's writer also has Flush/Sync/WriteString/WriteByte.
+	Rich bool `json:"rich,omitempty"`
 }
 
 // spinSentinel is the panic value of the writer when a call does not terminate.
@@ -135,6 +137,33 @@ func (w *planWriter) Write(p []byte) (int, error) {
 	}
 	w.accepted = append(w.accepted, p...)
 	return len(p), nil
+}
+
+// richWriter offers the optional methods of the common writers of the
+// standard library (bufio.Writer, bytes.Buffer, os.File) on top of a
+// planWriter: a decoder that starts to use one of them must still deliver
+// every byte once and surface the errors of Write.
+type richWriter struct {
+	*planWriter
+	flushes int
+}
+
+func (w *richWriter) Flush() error { w.flushes++; return nil }
+func (w *richWriter) Sync() error  { return nil }
+func (w *richWriter) WriteString(s string) (int, error) {
+	return w.planWriter.Write([]byte(s))
+}
+func (w *richWriter) WriteByte(c byte) error {
+	_, err := w.planWriter.Write([]byte{c})
+	return err
+}
+
+// writerFor returns the io.Writer handed to the decoder for a plan writer.
+func (dc *DCase) writerFor(w *planWriter) io.Writer {
+	if dc.Rich {
+		return &richWriter{planWriter: w}
+	}
+	return w
 }
 
 // DFail is a failed check of the decoder executor.
@@ -332,7 +361,7 @@ func RunDecoderHistory(dc *DCase, st *core.Stats, owned map[string]bool) *DFail 
 		}
 		r.W, r.B = r.buf.WindowSize, r.buf.BufferSize
 	} else {
-		if pv := call(func() { r.dec, ierr = lz.NewDecoder(r.w, cfg) }); pv != nil {
+		if pv := call(func() { r.dec, ierr = lz.NewDecoder(dc.writerFor(r.w), cfg) }); pv != nil {
 			return &DFail{Check: "panic", Class: "panic-init", Msg: fmtPanic(pv)}
 		}
 		c := cfg
@@ -344,6 +373,9 @@ func RunDecoderHistory(dc *DCase, st *core.Stats, owned map[string]bool) *DFail 
 		return nil
 	}
 	st.Inc("histories")
+	if dc.Rich && dc.SUT == "decoder" {
+		st.Inc("histories_with_flushable_writer")
+	}
 	for i := range dc.Ops {
 		op := &dc.Ops[i]
 		if dc.SUT == "buffer" {
@@ -950,7 +982,7 @@ func (r *DRun) stepDecoder(i int, op *DOp) {
 		cfg := lz.DecoderConfig{WindowSize: op.W2, BufferSize: op.B2}
 		w2 := &planWriter{fault: w.fault, calls: w.calls, faultsSeen: w.faultsSeen}
 		var ierr error
-		if pv := call(func() { ierr = d.Init(w2, cfg) }); pv != nil {
+		if pv := call(func() { ierr = d.Init(r.dc.writerFor(w2), cfg) }); pv != nil {
 			r.failf(i, "panic", "panic-Decoder.Init", "Init(%+v): %s", cfg, fmtPanic(pv))
 			return
 		}
@@ -981,7 +1013,7 @@ func (r *DRun) stepDecoder(i int, op *DOp) {
 		w2 := &planWriter{fault: w.fault, calls: w.calls, faultsSeen: w.faultsSeen} // the fault plan goes on by writer call index
 		var ierr error
 		ncfg, nw, nb := r.reinitCfg(op)
-		if pv := call(func() { ierr = d.Init(w2, ncfg) }); pv != nil {
+		if pv := call(func() { ierr = d.Init(r.dc.writerFor(w2), ncfg) }); pv != nil {
 			r.failf(i, "panic", "panic-Decoder.Init", "%s", fmtPanic(pv))
 			return
 		}
@@ -1007,7 +1039,7 @@ func (r *DRun) stepDecoder(i int, op *DOp) {
 			return
 		}
 		w2 := &planWriter{fault: w.fault, calls: w.calls, faultsSeen: w.faultsSeen} // the fault plan goes on by writer call index
-		if pv := call(func() { d.Reset(w2) }); pv != nil {
+		if pv := call(func() { d.Reset(r.dc.writerFor(w2)) }); pv != nil {
 			r.failf(i, "panic", "panic-Decoder.Reset", "%s", fmtPanic(pv))
 			return
 		}
